@@ -256,3 +256,134 @@ func VH_C12_kravatte_equals_specification() {
 	verifAssert(c12EqAll(out, want), "C12: Kravatte output equals the specification (every input block is compressed, rolls and padding at every 200-byte boundary)")
 	verifCover("compared")
 }
+
+// ---- specification differential for SANSE sessions ----
+//
+// Reference written from the SANSE definition (Farfalle paper, Algorithm 6) on
+// top of the Farfalle construction for a SEQUENCE of strings: every string of
+// the history is padded with a single 1 bit, split into 200-byte blocks,
+// x ^= P(m_i ^ rollC^I(k)) with one extra roll after each string; the output
+// is squeezed as in c12RefKravatte. The history is kept as a list of strings
+// and re-compressed from scratch for every output (no incremental state, no
+// queue, no phases — none of the implementation's bookkeeping).
+
+type c12RefSANSE struct {
+	k    [25]uint64
+	hist [][]byte // strings with their final (appendix | e | pad) byte
+	e    byte
+}
+
+func c12RefString(data []byte, appendix byte, appendixLen uint, e byte) []byte {
+	return append(append([]byte(nil), data...), appendix|e<<appendixLen|1<<(appendixLen+1))
+}
+
+func (r *c12RefSANSE) f(extra []byte, outLen int) []byte {
+	var x [25]uint64
+	kr := r.k
+	seq := r.hist
+	if extra != nil {
+		seq = append(append([][]byte(nil), r.hist...), extra)
+	}
+	for _, s := range seq {
+		m := append([]byte(nil), s...)
+		for len(m)%200 != 0 {
+			m = append(m, 0)
+		}
+		for off := 0; off < len(m); off += 200 {
+			st := kr
+			for i := 0; i < 200; i++ {
+				st[i/8] ^= uint64(m[off+i]) << (8 * (i % 8))
+			}
+			c12Perm(&st)
+			for i := range x {
+				x[i] ^= st[i]
+			}
+			kr = c12RefRollC(kr)
+		}
+		kr = c12RefRollC(kr)
+	}
+	y := x
+	c12Perm(&y)
+	out := make([]byte, 0, outLen+200)
+	for len(out) < outLen {
+		st := y
+		c12Perm(&st)
+		for i := 0; i < 200; i++ {
+			out = append(out, byte((st[i/8]^kr[i/8])>>(8*(i%8))))
+		}
+		y = c12RefRollE(y)
+	}
+	return out[:outLen]
+}
+
+func (r *c12RefSANSE) wrap(ad, pt []byte) (ct, tag []byte) {
+	if len(ad) > 0 || len(pt) == 0 {
+		r.hist = append(r.hist, c12RefString(ad, 0, 1, r.e))
+	}
+	if len(pt) > 0 {
+		ps := c12RefString(pt, 2, 2, r.e)
+		tag = r.f(ps, TagSize)
+		ks := r.f(c12RefString(tag, 3, 2, r.e), len(pt))
+		ct = make([]byte, len(pt))
+		for i := range pt {
+			ct[i] = pt[i] ^ ks[i]
+		}
+		r.hist = append(r.hist, ps)
+	} else {
+		tag = r.f(nil, TagSize)
+	}
+	r.e ^= 1
+	return ct, tag
+}
+
+func c12Session(msgs int) {
+	key := verifBytes("key", 16)
+	a, err := NewSANSE(key)
+	verifAssert(err == nil, "C12: a 16-byte key is accepted")
+	sealer := a.(*sanse)
+	b, _ := NewSANSE(key)
+	opener := b.(*sanse)
+	// the session bit of a fresh instance is 0; any later message starts from
+	// 0 or 1, so start from either (the invariant e in {0,1} is asserted below)
+	e0 := uint32(verifU8("session-bit") & 1)
+	sealer.e, opener.e = e0, e0
+	ref := &c12RefSANSE{k: sealer.kravatte.k, e: byte(e0)}
+	for m := 0; m < msgs; m++ {
+		pl := verifPick("ptlen", 0, 1, 200)
+		al := verifPick("adlen", 0, 1, 200)
+		pt, ad := verifBytes("plaintext", pl), verifBytes("ad", al)
+		wantCT, wantTag := ref.wrap(ad, pt)
+		got := sealer.Seal(nil, nil, pt, ad)
+		verifAssert(len(got) == pl+TagSize, "C12: ciphertext is plaintext length plus the tag")
+		if len(got) != pl+TagSize {
+			return
+		}
+		verifAssert(c12EqAll(got[:pl], wantCT), "C12: ciphertext of every message of a session equals the SANSE specification")
+		verifAssert(c12EqAll(got[pl:], wantTag), "C12: tag of every message of a session equals the SANSE specification")
+		verifAssert(sealer.e == uint32(ref.e), "C12: the session bit e is a single bit that toggles with every message (sealing side)")
+		out, err := opener.Open(nil, nil, append(append([]byte(nil), wantCT...), wantTag...), ad)
+		verifAssert(err == nil, "C12: the specification's ciphertext and tag open under the same key, associated data and history")
+		if err == nil {
+			verifAssert(c12EqAll(out, pt), "C12: opening the specification's ciphertext returns the plaintext")
+		}
+		verifAssert(opener.e == uint32(ref.e), "C12: the session bit e is a single bit that toggles with every message (opening side)")
+	}
+	verifCover("session compared")
+}
+
+//verif:prop C12
+//verif:replay none
+//verif:solver cvc5
+//verif:bounds key 16 symbolic bytes; session bit of the first message 0 or 1; 2 consecutive messages on one sealing and one opening instance; |plaintext| and |ad| each picked from {0,1,200} per message, all bytes symbolic; permutation uninterpreted and shared with the reference
+//verif:cover session compared
+//verif:timeout 900
+func VH_C12_sessions_equal_sanse_specification() { c12Session(2) }
+
+//verif:prop C12
+//verif:replay none
+//verif:solver cvc5
+//verif:tier thorough
+//verif:bounds as the 2-message variant with 3 consecutive messages
+//verif:cover session compared
+//verif:timeout 3000
+func VH_C12_sessions_equal_sanse_specification_3msgs() { c12Session(3) }
